@@ -396,6 +396,19 @@ class CallMixin:
             return T.scalar(st, s)
         raise Unsupported(f"set() of {v.ty}")
 
+    def bi_range(self, e, p):
+        """range(a, b) used as a value (comprehension source): the list of the integers a <= x < b, each once."""
+        args = [self.coerce(self.ev(a, p), T.INT).t for a in e.args]
+        if not 1 <= len(args) <= 2 or e.keywords:
+            raise Unsupported("range with step")
+        lo, hi = (z3.IntVal(0), args[0]) if len(args) == 1 else args
+        bt = T.Bag(T.INT)
+        b = fresh("range", bt.sort())
+        x = fresh("x", T.I)
+        self._assume(p, z3.ForAll([x], b[x] == z3.If(z3.And(lo <= x, x < hi), 1, 0), patterns=[b[x]]))
+        self._assume(p, bt.blen()(b) == z3.If(hi >= lo, hi - lo, 0))
+        return T.scalar(bt, b)
+
     def bi_deque(self, e, p):
         """collections.deque(iterable): a list whose order is not modelled."""
         if not e.args:
